@@ -636,3 +636,105 @@ func TestAmplificationModel(t *testing.T) {
 		}
 	}, newAmpMachine)
 }
+
+// TestAmplificationExhaustive runs every history "first datagram, then up to L further events" over a
+// small alphabet of events (full-size Initial arrival, 1-byte garbage arrival, 400-byte Initial carrying an
+// ACK for everything sent, Handshake arrival, the server wanting a full-size Initial / a coalesced
+// Initial+Handshake datagram plus one that lands exactly on the limit / three ACK-only packets, loss-timer
+// expiry) through the same machine and oracle as amp-model.
+func TestAmplificationExhaustive(t *testing.T) {
+	u := vf.U("amp-exhaustive")
+	if vf.ReplayMode() {
+		t.Skip("failures of this unit are reported in amp-model format")
+	}
+	L := 6
+	if vf.Thorough() {
+		L = 8
+	}
+	const A = 8
+	si, sk := vf.Shard()
+	mkOp := func(sym int, m *ampMachine) Op {
+		switch sym {
+		case 0:
+			return Op{Kind: "rx", Size: 1200, Parts: []RxPart{{L: "i"}}}
+		case 1:
+			return Op{Kind: "rx", Size: 1, Parts: []RxPart{{L: "g"}}}
+		case 2:
+			op := Op{Kind: "rx", Size: 400, Parts: []RxPart{{L: "i"}}, DtUs: 20_000}
+			if m.largestSent[0] >= 0 {
+				op.Parts[0].Ack = [][2]int64{{0, m.largestSent[0]}}
+			}
+			return op
+		case 3:
+			return Op{Kind: "rx", Size: 60, Parts: []RxPart{{L: "h"}}, DtUs: 20_000}
+		case 4:
+			return Op{Kind: "app", Want: []Dgram{{P: []TxPart{{L: "i", Sz: m.p.MaxDgram, AE: true}}}}}
+		case 5:
+			return Op{Kind: "app", Want: []Dgram{
+				{P: []TxPart{{L: "i", Sz: 700, AE: true}, {L: "h", Sz: 500, AE: true}}},
+				{P: []TxPart{{L: "h", Sz: 0, AE: true}}},
+			}}
+		case 6:
+			return Op{Kind: "app", DtUs: 1000, Want: []Dgram{
+				{P: []TxPart{{L: "i", Sz: 40}}}, {P: []TxPart{{L: "i", Sz: 41}}}, {P: []TxPart{{L: "h", Sz: 42}}},
+			}}
+		default:
+			return Op{Kind: "alarm", Probe: []TxPart{{Sz: m.p.MaxDgram, AE: true}, {Sz: 0, AE: true}}}
+		}
+	}
+	idx := 0
+	for _, validated := range []bool{false, true} {
+		for length := 1; length <= L; length++ {
+			if validated && length > L-2 {
+				continue // the control group gets a shorter horizon
+			}
+			n := 1
+			for i := 0; i < length; i++ {
+				n *= A
+			}
+			for code := 0; code < n; code++ {
+				idx++
+				if idx%sk != si {
+					continue
+				}
+				u.Case()
+				cs := vf.MachineCase[Params, Op]{Params: Params{Validated: validated, MaxDgram: 1200}}
+				var blocked bool
+				v := vf.Guard("amp-exhaustive", func() *vf.Verdict {
+					m := newAmpMachine(cs.Params).(*ampMachine)
+					c := code
+					for i := -1; i < length; i++ {
+						sym := 0
+						if i >= 0 {
+							sym = c % A
+							c /= A
+						}
+						op := mkOp(sym, m)
+						cs.Ops = append(cs.Ops, op)
+						if v := m.Apply(op); v != nil {
+							return v
+						}
+					}
+					v := m.Finish(vf.Scratch())
+					blocked = m.cls["blocked-with-data"]
+					for c := range m.cls {
+						u.Class(c)
+					}
+					return v
+				})
+				if v != nil {
+					if vf.U("amp-model").Report(v, cs) {
+						t.Fatalf("VIOLATION %s: %s (case %+v)", v.Sig, v.Detail, cs)
+					}
+				}
+				if blocked {
+					u.NonTrivial(validated, length, code)
+					if code%7919 == 0 && u.WantSample() {
+						u.Sample(cs)
+					}
+				}
+			}
+		}
+	}
+	u.Extra("exhaustive", fmt.Sprintf("all event sequences of length <= %d after the first datagram over an alphabet of %d events (arrivals 1200/1/400+ACK/Handshake, three kinds of send wishes incl. coalesced and exact-fill datagrams and ACK-only packets, loss-timer expiry), max datagram 1200; control group (validated token) up to length %d", L, A, L-2))
+}
